@@ -752,7 +752,7 @@ func TestVerifC11SendLoop(t *testing.T) {
 	k := vfNewKit(t, "C11", "brutal-sendloop")
 	defer k.Finish()
 	vfC11OracleSelfTest(t)
-	n := k.N(700, 20000)
+	n := k.N(700, 50000)
 	for i := 0; i < n; i++ {
 		id := fmt.Sprintf("loop-%d", i)
 		if rc := k.ReplayCase(); rc != "" && rc != id {
@@ -797,7 +797,7 @@ type vfC11AckCase struct {
 func TestVerifC11AckRate(t *testing.T) {
 	k := vfNewKit(t, "C11", "brutal-ackrate")
 	defer k.Finish()
-	n := k.N(6000, 100000)
+	n := k.N(6000, 300000)
 	sec := int64(time.Second)
 	ackedPool := make([]congestion.AckedPacketInfo, 4500) // only the lengths of the lists matter here
 	lostPool := make([]congestion.LostPacketInfo, 4500)
